@@ -128,8 +128,8 @@ PodsKnown == \A i \in 1..Len(prod) :
    /\ (IsTime(prod[i]) /\ prod[i].p # NOPOD) => PodKnown(prod[i].p)
    /\ IsInterval(prod[i]) => \A e \in {prod[i].f, prod[i].t} : (e # NONE /\ e.p # NOPOD) => PodKnown(e.p)
 AccessorsTotal == \A i \in 1..Len(prod) :
-   /\ IsTime(prod[i]) => (StartOf(prod[i]) # ERR /\ EndOf(prod[i]) # ERR /\ (hasDate(prod[i]) => DtOf(prod[i]) # ERR))
-   /\ IsInterval(prod[i]) => \A e \in {prod[i].f, prod[i].t} : e # NONE => (StartOf(e) # ERR /\ EndOf(e) # ERR)
+   /\ IsTime(prod[i]) => (EndsReal(prod[i]) /\ (hasDate(prod[i]) => DtOf(prod[i]) # ERR))
+   /\ IsInterval(prod[i]) => \A e \in {prod[i].f, prod[i].t} : e # NONE => EndsReal(e)
 
 \* latent anchoring of whatever the search can stream keeps it well formed (C02)
 PostWF == \A i \in 1..Len(prod) : IsValue(prod[i]) => WellFormed(Postprocess(ts, prod[i]))
